@@ -88,8 +88,10 @@ def plan(tier, seed, pid='C10', sym_only=False):
             qs.append(colorder_query(pid, 2, pat, sym, 1 + pat % 3))
         p3 = list(range(512)) if tier == 'thorough' else rnd.sample(range(512), 8)
         if tier != 'thorough' and not sym:
-            p3 = [pat for pat in p3 if bin(pat).count('1') <= 4]   # quick tier: the denser column-etree instances take 6-13 min each (thorough runs all 512)
-        qs += [colorder_query(pid, 3, pat, sym, 1 + pat % 4) for pat in sorted(p3)]
+            # quick tier: the column-etree instances take 6-15 min each (query + reachability twin); keep the sparse ones with a
+            # small supernode cap (observed 5-9 min), thorough runs all 512
+            p3 = [pat for pat in p3 if bin(pat).count('1') <= 4 and 1 + pat % 4 <= 2]
+        qs += [colorder_query(pid, 3, pat, sym, 1 + pat % 4, timeout=(1500 if not sym else 900)) for pat in sorted(p3)]
         # n=4, symbolic input permutation (all 24 in one query): forests with a two-child parent, chains, stars, isolated columns
         p4 = [lowpat(4, flip(e, sym)) for e in P4]
         if tier == 'thorough':
@@ -126,7 +128,7 @@ META = {
     'level': 'model_checking',
     'engines': 'E1: cbmc 6.11 bit-precise, MiniSat',
     'bounds': {'get_perm_c': 'options 0..2 (natural, MMD on A^T*A, MMD on A^T+A); every m x n pattern with m,n <= 2 and (quick: 60 sampled, thorough: all) patterns with m,n <= 3 incl. rectangular, empty rows/columns; plus 40 (thorough 400) concrete n=7..8 graphs built from isolated vertices, edges, paths, stars, triangles, cliques under random relabelling',
-               'sp_colorder': 'n<=4 with the input permutation symbolic (all n! bijections in one query): n=2 all patterns, n=3 quick 8 sampled per mode (column-etree mode: those of them with at most 4 entries) / thorough all 512, n=4 six forests (two-child parent, chain, star, isolated columns; thorough + all 64 lower patterns) - symbolic permutation in symmetric mode, three concrete permutations each in column-etree mode (the symbolic query exceeds the memory cap there); n=5 with 4 concrete permutations on 40 (thorough 1024) full-diagonal patterns; symmetric mode on/off, max supernode size 1..5; in symmetric mode the reported counts equal the Cholesky column counts and reported supernodes nest'},
+               'sp_colorder': 'n<=4 with the input permutation symbolic (all n! bijections in one query): n=2 all patterns, n=3 quick 8 sampled per mode (column-etree mode: those of them with at most 4 entries and supernode cap <= 2) / thorough all 512, n=4 six forests (two-child parent, chain, star, isolated columns; thorough + all 64 lower patterns) - symbolic permutation in symmetric mode, three concrete permutations each in column-etree mode (the symbolic query exceeds the memory cap there); n=5 with 4 concrete permutations on 40 (thorough 1024) full-diagonal patterns; symmetric mode on/off, max supernode size 1..5; in symmetric mode the reported counts equal the Cholesky column counts and reported supernodes nest'},
     'outside': ['option 3 (COLAMD): colamd.c carves its Row/Col records out of one int array by casts; symbolic execution of even a 2x2 instance did not finish in 600 s, so colamd.c is NOT encoded and nothing is claimed about it', 'n > 3', 'METIS orderings (not in this build)'],
     'assumptions': ['reference elimination tree computed in the harness by quadratic symbolic Cholesky on the boolean structure'],
     'trusted_base': ['cbmc 6.11', 'MiniSat'],
